@@ -3,6 +3,12 @@ import WV.Model.ClientData
 import WV.Model.C05
 import WV.Model.C10
 import WV.Model.C20
+import WV.Model.C06
+import WV.Model.C07
+import WV.Model.C19
+import WV.Model.C13
+import WV.Model.C15
+import WV.Model.C01
 
 /-! Line-protocol driver over the executable models.  First stdin line names the model
     (`C12`, …); every following line is one operation; one output line per operation. -/
@@ -20,6 +26,12 @@ def dispatch (which : String) (lines : List String) : List String :=
   | "C05" => WV.C05.driver lines
   | "C10" => WV.C10.driver lines
   | "C20" => WV.C20.driver lines
+  | "C06" => WV.C06.driver lines
+  | "C07" => WV.C07.driver lines
+  | "C19" => WV.C19.driver lines
+  | "C13" => WV.C13.driver lines
+  | "C15" => WV.C15.driver lines
+  | "C01" => WV.C01.driver lines
   | _ => ["unknown-model " ++ which]
 
 def main : IO Unit := do
